@@ -39,7 +39,7 @@ def run(module, cfg, workers=16, timeout=1800, env=None, extra=(), simulate=None
     """Run TLC on specs/<module>.tla with specs/<cfg>.  Returns TLCResult.  Raises Machinery on
     parse errors / crashes so that a broken spec can never look like a verdict."""
     meta = tempfile.mkdtemp(prefix='tlcmeta_')
-    cmd = ['java', '-XX:+UseParallelGC', '-Xmx8g']
+    cmd = ['java', '-XX:+UseParallelGC', '-Xmx8g', '-Xss256m']
     if dfs:
         cmd.append('-Dtlc2.tool.queue.IStateQueue=StateDeque')
     cmd += list(java_opts)
@@ -88,6 +88,14 @@ def run(module, cfg, workers=16, timeout=1800, env=None, extra=(), simulate=None
                  r'|Error: Evaluating|Error: The (first|second) argument of|Error: Attempted to)', out):
         raise Machinery('TLC failed on %s/%s:\n%s' % (module, cfg, out[-3000:]))
     if rc not in (0, 12, 13, 10, 11, -9) and not r.violated:
+        try:
+            with open(os.path.join(tempfile.gettempdir(), 'tlc_last_failure.log'), 'w') as fh:
+                fh.write(out)
+        except OSError:
+            pass
+        first = [ln for ln in out.splitlines() if ln.startswith('Error')][:3]
+        raise Machinery('TLC exit code %s on %s/%s: %s\n%s' % (rc, module, cfg, first, out[-1500:]))
+    if False:
         raise Machinery('TLC exit code %s on %s/%s:\n%s' % (rc, module, cfg, out[-3000:]))
     return r
 
